@@ -29,7 +29,7 @@ RULE = ("cases: (rows, V placement, family, scaling); executions: units x units 
 ASSUMPTIONS = ["tables are increasing in wavelength and cover 0.55 micron (the property's precondition)",
                "opacities from finite families (constant, power law, non-monotonic, seed-derived positive)"]
 OPS = ['scale-chi', 'chi-unit', 'wav-unit', 'new-chi', 'pickle', 'new-table', 'table-roundtrip-discarded']
-REQUIRED_CLASSES = ['query-unsorted-and-2d', 'table-native-in-other-unit', 'history-depth-3', 'history-new-chi-after-query', 'V-between', 'V-on-node', 'V-first', 'V-last', 'outside-zero', 'exact-at-V', 'pickle', 'table', 'file',
+REQUIRED_CLASSES = ['table-through-a-fits-file', 'queries-not-bracketing-V', 'law-file-replaced-and-read-again', 'query-unsorted-and-2d', 'table-native-in-other-unit', 'history-depth-3', 'history-new-chi-after-query', 'V-between', 'V-on-node', 'V-first', 'V-last', 'outside-zero', 'exact-at-V', 'pickle', 'table', 'file',
                     'unit-change', 'scaled', 'non-monotonic']
 
 
@@ -188,8 +188,25 @@ def run_case(ctx, case, rec, d):
             e.wav = np.array([float(decimal.Decimal(repr(float(w))) * decimal.Decimal(FACT[wu])) for w in wt]) * wu
             rec.cls('table-native-in-other-unit')
         e.chi = (ct * case['sc'] * u.cm ** 2 / u.g).to(cu)
+        def via_fits():
+            # the table form written to a FITS file and read back (columns come back in the file's byte order)
+            from astropy.table import Table
+            pth = os.path.join(d, 'law_table.fits')
+            e.to_table().write(pth, format='fits', overwrite=True)
+            rec.cls('table-through-a-fits-file')
+            return Extinction.from_table(Table.read(pth, format='fits'))
+
+        def big_endian():
+            t_ = e.to_table()
+            from astropy.table import Table, Column
+            t2 = Table()
+            for cn in ('wav', 'chi'):
+                t2[cn] = Column(np.asarray(t_[cn].data).astype('>f8'), unit=t_[cn].unit)
+            return Extinction.from_table(t2)
         forms = [('fresh', lambda: e), ('pickle', lambda: pickle.loads(pickle.dumps(e, 2))),
                  ('table', lambda: Extinction.from_table(e.to_table()))]
+        if qu == u.micron:
+            forms += [('table-fits', via_fits), ('table-big-endian', big_endian)]
         if wu != u.micron or qu != u.micron or cu != u.cm ** 2 / u.g:
             rec.cls('unit-change')
         for fname, mk in forms:
@@ -225,6 +242,23 @@ def run_case(ctx, case, rec, d):
                     rec.violation('get_av|value|%s' % ('outside' if exp[i] == 0 else 'V' if q[i] == 0.55 else 'inside'), dict(sub, i=i),
                                   {'query_micron': q[i], 'got': r[i], 'expected': exp[i], 'table_wav': wt[:6], 'table_chi': (ct * case['sc'])[:6]})
                     break
+            # queries that do not bracket V: infrared only, ultraviolet only, one wavelength at a time
+            if fname == 'fresh' and qu in (u.micron, u.nm):
+                inner_q = np.array([not (abs(x - wt[0]) < 1e-12 * wt[0] or abs(x - wt[-1]) < 1e-12 * wt[-1]) for x in q])
+                subsets = [('infrared-only', (q > 0.6) & inner_q), ('ultraviolet-only', (q < 0.5) & inner_q)] + [('single', np.arange(len(q)) == i_) for i_ in (1, len(q) // 2, len(q) - 3) if inner_q[i_]]
+                for sname_, mask_ in subsets:
+                    if not np.any(mask_):
+                        continue
+                    try:
+                        rs = np.asarray(obj.get_av((q[mask_] * u.micron).to(qu)), dtype=float)
+                    except Exception as ex:
+                        rec.violation('get_av|exception|query-shape', dict(sub, queries=sname_), {'type': type(ex).__name__, 'msg': str(ex)[:200]})
+                        continue
+                    rec.ev()
+                    rec.cls('queries-not-bracketing-V')
+                    if rs.shape != exp[mask_].shape or not np.all(np.abs(rs - exp[mask_]) <= 1e-9 * np.maximum(1, np.abs(exp[mask_]))):
+                        rec.violation('get_av|value|queries-%s' % sname_, dict(sub, queries=sname_), {'query_micron': q[mask_][:6], 'got': rs[:6], 'expected': exp[mask_][:6], 'rows': len(wt)})
+                        break
             # the same law queried with the wavelengths in another order (first and last inside the table, outside points in
             # between) and as a 2-d array: point-wise the same answers
             if fname == 'fresh':
@@ -248,6 +282,23 @@ def run_case(ctx, case, rec, d):
             if first:
                 rec.sample({'table_wav_micron': wt[:5], 'table_chi': ct[:5], 'queries_micron': q[:8], 'expected': exp[:8], 'units': sub})
                 first = False
+    # the text-file reader on a file that is replaced by another law under the same name between two reads
+    pth = os.path.join(d, 'law_again.txt')
+    for rep_, (w_, c_) in enumerate(((wt, ct), (wt * 1.5, ct[::-1] * 2.0 + 1.0))):
+        np.savetxt(pth, np.column_stack([w_, c_]))
+        try:
+            e_ = Extinction.from_file(pth)
+            ok_ = np.allclose(e_.wav.to(u.micron).value, w_, rtol=1e-15) and np.allclose(e_.chi.to(u.cm ** 2 / u.g).value, c_, rtol=1e-15)
+        except Exception as ex:
+            rec.violation('from_file|exception', {'read': rep_}, {'type': type(ex).__name__, 'msg': str(ex)[:200]})
+            break
+        rec.ev()
+        rec.trans()
+        if rep_:
+            rec.cls('law-file-replaced-and-read-again')
+        if not ok_:
+            rec.violation('from_file|columns', {'same_path_read': rep_ + 1}, {'wav_read': e_.wav.value[:4], 'wav_in_file': w_[:4], 'chi_read': e_.chi.value[:4], 'chi_in_file': c_[:4]})
+            break
     # the text-file reader: every ordered column pair of a 2..4 column file, both unit arguments
     for ncol in (2, 3, 4):
         cols = [wt, ct * case['sc'], ct * 2 * case['sc'], wt * 3][:ncol]
